@@ -9,6 +9,7 @@ pub mod c16;
 pub mod c17;
 pub mod c18;
 pub mod diffparse;
+pub mod split3;
 pub mod c19;
 pub mod c20;
 
@@ -24,9 +25,11 @@ pub fn run(suite: &str, seed: u64, count: u64, corpus: Option<&str>, em: &mut Em
         "c15" => c15::run(seed, count, corpus, em),
         "c15repo" => c15::run_repo(seed, count, corpus, em),
         "c16" => c16::run(seed, count, corpus, em),
+        "c16ls" => c16::run_linestep(seed, count, corpus, em),
         "c17" => c17::run(seed, count, corpus, em),
         "c18" => c18::run(seed, count, corpus, em),
         "diffparse" => diffparse::run(seed, count, corpus, em),
+        "split3" => split3::run(seed, count, corpus, em),
         "c19" => c19::run(seed, count, corpus, em),
         "c09" => c09::run(seed, count, corpus, em),
         "c09repo" => c09::run_repo(seed, count, corpus, em),
